@@ -146,6 +146,22 @@ def strip_generics(s):
     return "".join(out).replace("::::", "::")
 
 
+def fn_key(path):
+    """Stable, line-free name of a function for table keys: generic arguments are stripped but the
+    `<Type as Trait>` qualification of trait-impl methods is kept."""
+    if path.startswith("<"):
+        depth = 0
+        for i, ch in enumerate(path):
+            if ch == "<":
+                depth += 1
+            elif ch == ">":
+                depth -= 1
+                if depth == 0:
+                    inner, rest = path[1:i], path[i + 1:]
+                    return "<" + strip_generics(inner).replace("'_ ", "") + ">" + strip_generics(rest)
+    return strip_generics(path)
+
+
 class Fn:
     def __init__(self, d, crate):
         self.d = d
@@ -566,6 +582,10 @@ class Facts:
                         self.crates.setdefault(crate, d)
         for p, fn in self.fns.items():
             self.by_name[last_seg(p)].append(fn)
+        self.deps = None
+        dp = os.path.join(facts_dir, "deps.json")
+        if os.path.exists(dp):
+            self.deps = json.load(open(dp))
         self._closures = None
         self._callers = None
 
@@ -669,9 +689,16 @@ class CallGraph:
             self.edges[f.path].add(p)
         else:
             self.ext[f.path].add(p)
-        if r == "unresolved" and cal.get("trait"):
-            # class-hierarchy resolution: all workspace impls of that trait method
+        if r in ("unresolved", "virtual") and cal.get("trait"):
+            # class-hierarchy resolution: all workspace impls of that trait method that the caller's
+            # crate can see (its own crate and its dependency closure)
+            deps = self.facts.deps
+            visible = None
+            if deps is not None and f.crate in deps:
+                visible = set(deps[f.crate]) | {f.crate}
             for ip in self.impl_methods.get((cal["trait"], cal.get("method")), ()):
+                if visible is not None and self.facts.fns[ip].crate not in visible:
+                    continue
                 self.edges[f.path].add(ip)
         # fn items passed as arguments may be called by the callee
         for a in c.args:
